@@ -85,7 +85,10 @@ fn item<C: Suite>(ctx: &mut Ctx, n: u16, t: u16, kind: &str) {
             if sender == me {
                 continue;
             }
-            let faults = build_faults::<C>(&run_a, &run_b, me, sender, &sorted, outsider, &r1, &r2, t);
+            // the u16-wrapping length: receiver = highest identifier and sender = lowest (its commitment then comes first when
+            // the commitments are summed), and the other way round; smallest shapes with default identifiers only
+            let wrap_len = kind == "default" && n <= 3 && C::NAME != "ed448" && ((*me == sorted[sorted.len() - 1] && *sender == sorted[0]) || (*me == sorted[0] && *sender == sorted[sorted.len() - 1]));
+            let faults = build_faults::<C>(&run_a, &run_b, me, sender, &sorted, outsider, &r1, &r2, t, wrap_len);
             for f in faults {
                 judge::<C>(ctx, &run_a, me, sender, &f, n, t);
             }
@@ -107,6 +110,7 @@ fn build_faults<C: Suite>(
     r1: &IdMap<C, round1::Package<C>>,
     r2: &IdMap<C, round2::Package<C>>,
     t: u16,
+    wrap_len: bool,
 ) -> Vec<Fault<C>> {
     let mut out = vec![];
     let pkg = &r1[sender];
@@ -155,6 +159,30 @@ fn build_faults<C: Suite>(
     }
     // a whole valid contribution of the same sender from another run, presented only at part3
     r1_fault("commitment-swapped-at-part3", "commitment-swapped-at-part3", Step::Part3, true, b.r1_pkgs[sender].clone(), true);
+    // a commitment whose length equals the threshold only modulo 2^16 (65536 surplus coefficients, all equal to c*G), with
+    // the sender's unchanged - and still valid - proof, and a round-two share consistent with the long polynomial.
+    // Costs seconds per verification, so one (receiver, sender) pair per run.
+    if wrap_len {
+        let c = sc_u64::<C>(3);
+        let mut e = els.clone();
+        e.resize(els.len() + 65_536, g::<C>() * c);
+        // f'(x) = f(x) + c * sum_{k=t}^{t+65535} x^k
+        let x = id_sc::<C>(me);
+        let mut pw = one::<C>();
+        for _ in 0..els.len() {
+            pw = pw * x;
+        }
+        let mut sum = zero::<C>();
+        for _ in 0..65_536u32 {
+            sum = sum + pw;
+            pw = pw * x;
+        }
+        let mut m2 = r1.clone();
+        m2.insert(*sender, round1::Package::new(vss_comm::<C>(e), pok));
+        let mut rr = r2.clone();
+        rr.insert(*sender, round2::Package::new(SigningShare::<C>::new(r2[sender].signing_share().to_scalar() + c * sum)));
+        out.push(Fault { name: "commitment-length-threshold-plus-65536".into(), class: "commitment-length-wraps-u16".into(), step: Step::Part2, attributable: false, slot: Some(*sender), r1_for_part2: m2.clone(), r1_for_part3: m2, r2: rr });
+    }
     // filing faults of round one
     {
         let mut m = r1.clone();
